@@ -97,9 +97,26 @@ def call(f):
         return {"err": type(ex).__name__, "v": False}
 
 
+VIA_REPLACE = [False]
+
+
 def build(n_e, n_p, n_c, prog):
+    """the circuit of a program; in 'via replace' families every one-qubit gate is first added as an Identity
+    placeholder and then put in with replace_op (the circuit is the same, its edit history is not)."""
     try:
-        return cz.build_circuit(n_e, n_p, n_c, prog)
+        if not VIA_REPLACE[0]:
+            return cz.build_circuit(n_e, n_p, n_c, prog)
+        from graphiq.circuit.circuit_dag import CircuitDAG
+        c = CircuitDAG(n_emitter=n_e, n_photon=n_p, n_classical=n_c)
+        for spec in prog:
+            if spec["k"] in cz.ONEQ and spec["k"] != "Identity":
+                before = set(c.dag.nodes)
+                c.add(cz.build_op({"k": "Identity", "r": spec["r"], "c": None}))
+                node = next(iter(set(c.dag.nodes) - before))
+                c.replace_op(node, cz.build_op(spec))
+            else:
+                c.add(cz.build_op(spec))
+        return c
     except Exception:
         return None
 
@@ -109,6 +126,7 @@ GED_BUDGET = [0]
 
 def trace_for(tid, rng, quick):
     from graphiq.utils.circuit_comparison import remove_redundant_circuits, CircuitStorage, check_redundant_circuit
+    VIA_REPLACE[0] = rng.random() < 0.25
     n_e, n_p = rng.choice([(1, 1), (2, 1), (1, 2), (2, 2)])
     n_c = rng.choice([1, 2])
     length = rng.choice([1, 2, 2, 3, 4, 5, 6, 7])
@@ -170,7 +188,7 @@ def trace_for(tid, rng, quick):
     except Exception as ex:
         out = {"err": type(ex).__name__, "kept": []}
     events.append({"fn": "dedup", "method": "storage", "list": [i + 1 for i in idx], "out": out})
-    return {"tid": tid, "meta": {"n_e": n_e, "n_p": n_p, "n_c": n_c, "program": prog, "tags": tags},
+    return {"tid": tid, "meta": {"n_e": n_e, "n_p": n_p, "n_c": n_c, "program": prog, "tags": tags, "via_replace": VIA_REPLACE[0]},
             "circuits": recs, "events": events}
 
 
